@@ -304,7 +304,11 @@ int main(int argc, char **argv) {
         while ((e = readdir(d)) != NULL) {
           int is_manifest = strncmp(e->d_name, "MANIFEST-", 9) == 0, is_current = strcmp(e->d_name, "CURRENT") == 0;
           snprintf(path, sizeof(path), "%s/%s", g_dir, e->d_name);
-          if (variant == 0 && (is_manifest || is_current)) unlink(path);
+          if ((variant == 0 || variant == 4) && (is_manifest || is_current)) unlink(path);
+          else if (variant == 4 && strlen(e->d_name) > 4 && !strcmp(e->d_name + strlen(e->d_name) - 4, ".ldb") && (e->d_name[5] & 1)) {
+            /* legacy table suffix: every table with an odd number becomes NNNNNN.sst */
+            char to[1200]; snprintf(to, sizeof(to), "%s/%s", g_dir, e->d_name); memcpy(to + strlen(to) - 3, "sst", 3); rename(path, to);
+          }
           else if (variant == 1 && is_manifest) { struct stat st; if (stat(path, &st) == 0) truncate(path, st.st_size / 2); }
           else if (variant == 2 && is_current) { FILE *f = fopen(path, "w"); if (f) { fputs("MANIFEST-999999\n", f); fclose(f); } }
           else if (variant == 3 && is_manifest) { FILE *f = fopen(path, "r+"); if (f) { fseek(f, 9, SEEK_SET); fputc(0x5a, f); fclose(f); } }
